@@ -377,6 +377,21 @@ def cmd_run(args):
         t.join()
 
 
+def family(f):
+    """the checks of neighbouring properties that exercise the same file (run against survivors of the anchored checks)"""
+    if f.startswith("dkg"):
+        return ["C07", "C08", "C09", "C10", "C20"]
+    if f.startswith("bls_thresholdsign"):
+        return ["C06", "C18", "C09", "C20"]
+    if f.startswith("hash/"):
+        return ["C13", "C19", "C20", "C01", "C16"]
+    if f.startswith("random/"):
+        return ["C14", "C15", "C09", "C20"]
+    if f in ("ecdsa.go", "sign.go"):
+        return ["C11", "C12", "C05", "C09", "C19", "C20"]
+    return ["C01", "C02", "C03", "C04", "C05", "C16", "C17", "C12", "C06", "C09", "C19", "C20"]
+
+
 def cmd_recheck(args):
     tier = opt(args, "--tier", "quick")
     ids_override = list(filter(None, opt(args, "--ids", "").split(",")))
@@ -396,7 +411,10 @@ def cmd_recheck(args):
                 print(n, "unknown or stale")
                 continue
             try:
-                res = run_checks(d, c, ids_override or c["props"], tier=tier, par="16")
+                ids = ids_override or c["props"]
+                if "--family" in args:
+                    ids = [p for p in family(c["file"]) if p not in c["props"]]
+                res = run_checks(d, c, ids, tier=tier, par="8")
             finally:
                 restore(d, c)
             print(n, c["file"], c["line"], c["desc"], {p: x["exit"] for p, x in res.items()}, flush=True)
